@@ -510,6 +510,24 @@ def _refine(assumptions, goal, budget_s, linearise=False):
         if added:
             continue
         if not undecided:
+            # the counter-model exists (the solved part, one model per residue group); for the WITNESS try to get it as
+            # one model: every premise, the scalar values of the solved part pinned (a short, easy query); without it
+            # the witness shows the solved part only (values of symbols decided in a group are then defaults)
+            try:
+                sf = _solver(3000)
+                for a in prem:
+                    sf.add(a)
+                sf.add(z3.Not(goal))
+                for d in m0.decls():
+                    if d.arity() == 0 and d.range().kind() in (z3.Z3_INT_SORT, z3.Z3_REAL_SORT, z3.Z3_BOOL_SORT):
+                        sf.add(d() == m0[d])
+                for names, h in hints_all:
+                    if any(nm in allsyms for nm in names):
+                        sf.add(h)
+                if sf.check() == z3.sat:
+                    return z3.sat, sf
+            except z3.Z3Exception:
+                pass
             return z3.sat, sv
         # (c) premises of undecided groups join the solved part - one at a time: a single premise the solver cannot
         #     handle must not hide the others
